@@ -159,11 +159,14 @@ def run(ctx, ck) -> None:
             if p.exit != 'return':
                 continue
             t = term(p.node.value)
+            from ..terms import atom_facts as _af
+
             for e, pol in p.conds():
-                s = ast.unparse(e)
-                if pol and s.startswith('len(args) == '):
-                    c = table.find(world.qualify(land, t[1][1]) or '') if t[0] == 'call' and t[1][0] == 'var' else None
-                    got[int(s.split('==')[1])] = c
+                for f in _af(e, pol, {}):
+                    if f[0] == 'eq' and ('call', ('var', 'len'), (('var', 'args'),), ()) in f[1]:
+                        other = next(x for x in f[1] if x[0] == 'const')
+                        c = table.find(world.qualify(land, t[1][1]) or '') if t[0] == 'call' and t[1][0] == 'var' else None
+                        got[int(other[1])] = c
         for nargs, c in sorted(got.items()):
             ck.expect('V3', c is not None and len(table.fields(c)) == nargs, fs, f'{nargs} components -> {c.name if c else "?"}', f'from_stokes builds {c.name if c else "?"} from {nargs} components', instance=f'from_stokes {nargs}')
         ck.floor('V3', len(got), 4, 'from_stokes arities')
